@@ -52,6 +52,7 @@ pub struct Mon {
     drops_since_clear: u64,
     /// on_evict callbacks for victims and swept entries (not the clear/close drain) since the last clear
     evictions_since_clear: i64,
+    panics_seen: u64,
     any_error: bool,
     closed_ok: bool,
     clear_returned_clean: bool,
@@ -80,7 +81,7 @@ impl Mon {
             case, cfg, flags, item_size: item_size as i64,
             spec: HashMap::new(), val_key: HashMap::new(), val_cost: HashMap::new(), accepted: HashSet::new(),
             cb_count: HashMap::new(), overwritten: HashSet::new(), before_clear: HashSet::new(), cleared_ok: HashMap::new(), clear_epoch: 0, start_epoch: HashMap::new(), clear_on_closed: HashSet::new(), at_clear_call: HashMap::new(), started_after_close: HashSet::new(),
-            cur_op: HashMap::new(), sent_by: HashMap::new(), after_wait: Vec::new(), lookups_since_clear: 0, ring_carry: 0, drops_since_clear: 0, evictions_since_clear: 0,
+            cur_op: HashMap::new(), sent_by: HashMap::new(), after_wait: Vec::new(), lookups_since_clear: 0, ring_carry: 0, drops_since_clear: 0, evictions_since_clear: 0, panics_seen: crate::sched::PANICS.load(std::sync::atomic::Ordering::SeqCst),
             any_error: false, closed_ok: false, clear_returned_clean: false, straddled: false, inserted_after_clear: false, hits: 0,
             prev: None, evicted_once: HashSet::new(), conf_seen: HashMap::new(), in_tick: false, tick_time: 0,
         }
@@ -534,7 +535,14 @@ impl Mon {
     }
 
     pub fn hung(&mut self, line: &str) {
-        self.hit("C20", format!("an actor did not reach its next scheduling point within 30 s: {}", line));
+        let panics = crate::sched::PANICS.load(std::sync::atomic::Ordering::SeqCst);
+        if panics > self.panics_seen {
+            self.panics_seen = panics;
+            let msg = crate::sched::LAST_PANIC.lock().map(|g| g.clone()).unwrap_or_default();
+            self.hit("C20", format!("a worker panicked and never reached its next scheduling point: {} [{}]", line, msg));
+        } else {
+            self.hit("C20", format!("an actor did not reach its next scheduling point within 30 s: {}", line));
+        }
     }
 
     pub fn stuck(&mut self, a: usize, point: &str) {
